@@ -427,6 +427,23 @@ func applyBudgetReturned(c *Check) {
 				blocks[st.Instr.Block().Index] = true
 			}
 		}
+		// or a helper that always stores it
+		for _, in := range p.liveInstrsOf(appliedTo) {
+			ci, isCall := in.(ssa.CallInstruction)
+			if !isCall {
+				continue
+			}
+			callee := ci.Common().StaticCallee()
+			if callee == nil || callee.Blocks == nil {
+				continue
+			}
+			cfi := p.Info(callee)
+			for _, st := range p.StoresTo(f) {
+				if st.Fn == callee && !st.Whole && cfi.Live(st.Instr) && storesOnEveryPath(p, callee, f) {
+					blocks[in.Block().Index] = true
+				}
+			}
+		}
 		ok := len(blocks) > 0
 		seen := fi.ReachableFrom([]int{0}, func(b int) bool { return blocks[b] })
 		for b := range seen {
@@ -932,6 +949,31 @@ func skipImplies(fi *FuncInfo, call ssa.Instruction, spec *BF) bool {
 	}
 	for _, pth := range paths {
 		if ok, _ := bfImplies(bfAnd(pth...), spec); !ok {
+			return false
+		}
+	}
+	return true
+}
+
+// storesOnEveryPath: every returning path of fn passes through a block that stores field f.
+func storesOnEveryPath(p *Prog, fn *ssa.Function, f *types.Var) bool {
+	fi := p.Info(fn)
+	blocks := map[int]bool{}
+	for _, st := range p.StoresTo(f) {
+		if st.Fn == fn && !st.Whole && fi.Live(st.Instr) {
+			blocks[st.Instr.Block().Index] = true
+		}
+	}
+	if len(blocks) == 0 {
+		return false
+	}
+	seen := fi.ReachableFrom([]int{0}, func(b int) bool { return blocks[b] })
+	for b := range seen {
+		if blocks[b] || fi.Cut[b] >= 0 {
+			continue
+		}
+		ins := fi.Fn.Blocks[b].Instrs
+		if _, isRet := ins[len(ins)-1].(*ssa.Return); isRet {
 			return false
 		}
 	}
